@@ -314,6 +314,19 @@ def xkeyString (pr : Prims) (h : Heap) (k : XKeyH) : HRes Bytes :=
   let r7 := r6.heap.append r6.val checkSum
   ⟨r7.heap, Base58.encode (r7.heap.read r7.val)⟩
 
+/-- `ExtendedKey.Address(net)` = `addressFromPublicKeyHash(crypto.Hash160(k.pubKeyBytes()), addrID)`. -/
+def xkeyAddress (pr : Prims) (h : Heap) (k : XKeyH) (addrID : UInt8) : HRes Bytes :=
+  let rp := pubKeyBytes h k
+  let rh := rp.heap.allocBytes (pr.hash160 (rp.heap.read rp.val))   -- crypto.Hash160(…): a fresh slice
+  let r0 := rh.heap.alloc 1 1                                   -- bb := make([]byte, 1)
+  let h1 := r0.heap.store r0.val 0 addrID                       -- bb[0] = addrID
+  let r1 := h1.append r0.val (h1.read rh.val)                   -- bb = append(bb, hash...)
+  let r2 := r1.heap.alloc 0 (r1.val.len + 4)                    -- b := make([]byte, 0, len(bb)+4)
+  let r3 := r2.heap.append r2.val (r2.heap.read r1.val)         -- b = append(b, bb[:]...)
+  let ckSum := (pr.sha256d (r3.heap.read r3.val)).take 4        -- ckSum := k.checksum(b)
+  let r4 := r3.heap.append r3.val ckSum                         -- b = append(b, ckSum[:]...)
+  ⟨r4.heap, Base58.encode (r4.heap.read r4.val)⟩                -- return base58.Encode(b)
+
 /-- the `data` buffer of `ExtendedKey.Child(i)` up to the HMAC: the only writes are into `data`. -/
 def childData (h : Heap) (k : XKeyH) (i : Nat) : HRes Slice :=
   let keyLen := 33
